@@ -1,5 +1,6 @@
 import Driver.Proto
 import ThunderModel.Pagination
+import ThunderModel.PageFilter
 /-! C11 handler. -/
 open Lean TM.Page
 
@@ -72,6 +73,13 @@ def handle : Handler := fun req => do
     let n ← nat req "n"
     pure <| Json.mkObj [("forward", jNats (walk l n (l.length + 1) none)),
                         ("backward", jNats (walkBack l n (l.length + 1) none))]
+  | "filter" =>
+    -- the tokens of a filter text and, for each text, whether it passes the default filter
+    let ft ← str req "ft"
+    let texts ← listOf (·.getStr?) (← field req "texts")
+    let toks := tokens ft.toList
+    pure <| Json.mkObj [("tokens", jList (fun t => Json.str (String.ofList t)) toks),
+                        ("passes", jList (fun (t : String) => Json.bool (passes t.toList toks)) texts)]
   | _ => throw s!"C11: unknown op {op}"
 
 end Driver.C11
